@@ -16,7 +16,7 @@ ASSUMPTIONS = [
     "vlib/casref.py (tape grammar written from the Color BASIC format description) is the trusted reference",
     "files are handed to the container as CoCoFile objects the way assembler.py and file_util.py build them",
 ]
-HEALTH = {"multi_block": 0.2, "len_mod255_edge": 0.1}
+HEALTH = {"multi_block": 0.08, "len_mod255_edge": 0.04}
 EXHAUSTIVE = {"quick": ["single file of every data length 0..1100"],
               "thorough": ["single file of every data length 0..6000"]}
 
